@@ -1,7 +1,7 @@
 (** Program: a whole computation = source + operations + terminal, executed by the runner
     machine under a schedule, with the settings arithmetic of [Settings.v] deciding spawns and
     chunk sizes.  This is the executable model that is extracted and run against the crate. *)
-From OrxPar Require Import Base Settings SettingsP Spec Pipeline PipelineP Machine MachineP Termination Kernels KernelsP.
+From OrxPar Require Import Base Settings SettingsP Spec Pipeline PipelineP Machine MachineP Termination Kernels KernelsP Own.
 Set Implicit Arguments.
 
 (** ** the runner's decisions, as the machine consumes them *)
@@ -209,5 +209,22 @@ Proof.
   pose proof (phi_after_signal H3 (mrunp_SInv len stop panics sched) Hsk) as P.
   lia.
 Qed.
+
+
+(** ** ownership of an owning source (C13 / C14) *)
+Theorem mrunp_source_accounting len stop panics sched :
+  all_done (mrunp len stop panics sched) ->
+  Permutation (moved_out (mrunp len stop panics sched)
+               ++ skip_drops len known stop panics (m_dospawn r) (m_nextc r) (init (m_c0 r)) sched
+               ++ final_drop len (mrunp len stop panics sched))
+              (seq 0 len).
+Proof.
+  intros Hd. destruct spawner_hyps as (H1 & H2 & H3 & H4).
+  apply (@source_accounting len known stop panics (m_dospawn r) (m_nextc r) (m_maxt r) H1 H2 H3 (m_c0 r) sched H4 Hd).
+Qed.
+
+Theorem mrunp_panic_propagates len stop panics sched w i :
+  In w (ws (mrunp len stop panics sched)) -> In i (seen w) -> panics i = true -> ph w = Dead.
+Proof. intros Hw Hi Hp. eapply panic_dead; eauto. apply mrunp_GInv. Qed.
 
 End Run.
